@@ -674,10 +674,13 @@ CON_ISR = [
     Stage('console-isr-random', ['harness/console_isr.c'] + SHIM, CON, preset='shim', nproc=16,
           args={'quick': ['--extra', 'random'], 'thorough': ['--extra', 'random']},
           needs_min={'characters_fed_inside_a_scheduler_pass': 10000, 'lines_dispatched_and_compared': 10000}),
+    Stage('console-thread-co', ['harness/console_isr.c'] + SHIM, CON, preset='shim', nproc=16,
+          args={'quick': ['--extra', 'co'], 'thorough': ['--extra', 'co']},
+          needs_min={'coroutine_schedules': 2000, 'characters_fed_by_thread': 10000}),
 ]
 for _pid in ('C06', 'C15'):
     PROPS[_pid]['stages'] += CON_ISR
     PROPS[_pid]['rule'] += (' console-isr-*: console_putchar called from an injected interrupt - the line-completing '
                             'newline before every schedule point of a three-pass window (3 lines x 3 scheduler states), '
                             'and whole streams of 1-8 lines fed by randomly placed interrupts (never nested: the ring has one producer) in bursts '
-                            'of <= 15; oracle: every complete line dispatched exactly once, in order, with its arguments.')
+                            'of <= 15, and by a free-running input "thread" (coroutine, random/PCT schedules, one line outstanding); oracle: every complete line dispatched exactly once, in order, with its arguments.')
